@@ -27,11 +27,90 @@ class Impl6(H5.Impl):
         super().__init__(scratch)
         self.bs = list(BS)
         self.stack_dim = len(BS)
+        self.allow_params = False  # (the memoised reads of a TensorDictParams are those of its content)
         self.nt_no = {}            # id(non tensor object) -> obj number
         self.fresh_nt = set()      # (node id, key) whose entry is still a NonTensorData (first indexed write rebinds)
         self.results = set()       # ids of the tensordicts handed out by flatten_keys
         self.recent = []           # recent read events
         self.last_read = None
+        self.alias = {}            # id(result object of a nested-valued read) -> index of its flat placeholder in `nodes`
+        self.nmm6 = 0
+
+    def node_id(self, obj):
+        j = self.alias.get(id(obj))
+        if j is not None:
+            return j
+        return super().node_id(obj)
+
+    # ---------------------------------------------------------------- metadata helpers
+    def index_of(self, n):
+        for i, x in enumerate(self.nodes):
+            if x is n:
+                return i
+        return None
+
+    def names_of(self, n):
+        """dimension names computed without the memoised property; None when the members of a stack disagree"""
+        if self.is_lazy(n):
+            ms = [self.names_of(m) for m in n.tensordicts]
+            if any(m is None for m in ms) or any(m != ms[0] for m in ms[1:]):
+                return None
+            out = list(ms[0])
+            out.insert(n.stack_dim, n._td_dim_name)
+            return out
+        names = n._td_dim_names
+        return list(names) if names is not None else [None] * n.batch_dims
+
+    def named(self, i):
+        for n in self.reach(i):
+            if self.is_lazy(n):
+                if n._td_dim_name is not None:
+                    return True
+            elif self.is_tc(n):
+                if n._tensordict._td_dim_names is not None:
+                    return True
+            elif n._td_dim_names is not None:
+                return True
+        return False
+
+    def stacks_consistent_after(self, changed):
+        """would every live lazy stack still have members with equal names if the nodes in `changed` got other names?"""
+        for n in self.nodes:
+            if n is None or not self.is_lazy(n):
+                continue
+            inside = [any(m is c for c in changed) for m in n.tensordicts]
+            if any(inside) and not all(inside):
+                return False
+        return True
+
+    def cache_nonempty(self):
+        out = []
+        for i, n in enumerate(self.nodes):
+            if n is None:
+                continue
+            c = getattr(n, "_cache", None)
+            if c and any(len(v) for v in c.values()):
+                out.append(i)
+        return out
+
+    def underlying_no(self, v, source):
+        """identity of the leaf a rebuilt entry wraps (BatchedTensor) or shares its storage with (detach)"""
+        try:
+            from torch._C._functorch import get_unwrapped, is_batchedtensor
+            while is_batchedtensor(v):
+                v = get_unwrapped(v)
+        except ImportError:  # pragma: no cover
+            pass
+        if id(v) in self.leaf_no:
+            return self.leaf_no[id(v)]
+        try:
+            ptr = v.data_ptr()
+        except Exception:  # noqa
+            return -1
+        for leaf in source.values(True, True):
+            if isinstance(leaf, torch.Tensor) and id(leaf) in self.leaf_no and leaf.data_ptr() == ptr:
+                return self.leaf_no[id(leaf)]
+        return -1
 
     def kids(self, n):
         from tensordict.base import _is_tensor_collection
@@ -114,6 +193,33 @@ class Impl6(H5.Impl):
             self.nt_no[id(v)] = no
             self.keep.append(v)
             self.fresh_nt.discard((i, k))
+        elif kind == "attr":
+            _, i, field, value, depth, op = ev
+            td = self.nodes[i]
+            if op == "names_new":
+                names = [f"n{value}"] if not self.is_lazy(td) else [f"n{value}", f"s{value}"]
+                td.names = names
+            elif op == "names_none":
+                td.names = None
+            elif op == "batch":
+                td.batch_size = []
+                td.batch_size = list(BS)
+            elif op == "device":
+                td.clear_device_()
+                td.auto_device_()
+                if any(n.device is None for n in self.reach(i)):
+                    td._set_device(torch.device("cpu"))
+            else:
+                raise ValueError(op)
+        elif kind == "mmap":
+            _, i, news = ev
+            self.nmm6 += 1
+            td = self.nodes[i]
+            td.memmap_(str(self.scratch / f"mm6_{self.nmm6}"), copy_existing=True)
+            for j, k, no in news:
+                v = self.nodes[j]._tensordict.get(k)
+                self.leaf_no[id(v)] = no
+                self.keep.append(v)
         elif kind == "read":
             self.last_read = self.read(ev)
         else:
@@ -182,6 +288,22 @@ class Impl6(H5.Impl):
             return list(td._nested_keys(bool(args[0]), bool(args[1]), args[2]))
         if meth == 7:
             return td._get_str(H5.KID_KEYS[args[0]], None)
+        if meth == 8:
+            # the memo of torch.vmap: `td._add_batch_dim(in_dim=…, vmap_level=…)` is what a vmapped function receives
+            in_dim, level = args
+            got = []
+
+            def f(t):
+                got.append(t)
+                return torch.zeros(())
+            dim = in_dim
+            if level == 1:
+                torch.vmap(f, in_dims=(dim,))(td)
+            else:
+                torch.vmap(lambda d: torch.vmap(f, in_dims=(dim,))(td) + 0 * d)(torch.zeros(1))
+            return got[0]
+        if meth == 9:
+            return td.detach()
         raise ValueError(meth)
 
     def canon(self, td, meth, out, ids=True):
@@ -207,6 +329,10 @@ class Impl6(H5.Impl):
             items = sorted([k, ent(v)[1]] for k, v in out._tensordict.items())
             j = self.node_id(out)
             return ["object", j if (j is not None and ids) else -1, items]
+        if meth in (8, 9):
+            items = sorted([".".join(path(k)), self.underlying_no(v, td) if ids else 0] for k, v in out.items(True, True))
+            j = self.node_id(out)
+            return ["object", j if (j is not None and ids) else -1, items]
         if meth == 5:
             return ["value", sorted([[k], ["l", 0]] for k in out)]
         if meth == 6:
@@ -224,6 +350,35 @@ class Impl6(H5.Impl):
 
 def _noop(ev):
     pass
+
+
+ALLOCATING = (4, 8, 9)
+
+
+def register_result(impl, ev, rd):
+    """a tensordict-valued read allocates an object on every computation: it gets the next id on both sides.  `_add_batch_dim`
+    and `detach` return nested tensordicts; the model's result is flat, so the object is represented by a flat placeholder."""
+    from tensordict import TensorDict
+    out = impl._last_out
+    src = impl.nodes[ev[1]]
+    idx = len(impl.nodes)
+    impl.results.add(idx)
+    if ev[2] == 4:
+        impl.nodes.append(out)
+    else:
+        flat = {}
+        for k, v in out.items(True, True):
+            no = impl.underlying_no(v, src)
+            leaf = next((x for x in src.values(True, True) if isinstance(x, torch.Tensor) and impl.leaf_no.get(id(x)) == no), None)
+            if leaf is not None:
+                flat[".".join([k] if isinstance(k, str) else list(k))] = leaf
+        ph = TensorDict({}, batch_size=[])
+        for k, leaf in flat.items():
+            ph._tensordict[k] = leaf            # (keep the very leaf objects: no copy, no validation)
+        impl.alias[id(out)] = idx
+        impl.keep.append(out)
+        impl.nodes.append(ph)
+    rd["result"] = impl.canon(src, ev[2], out)
 
 
 def canon_model_read(meth, a):
@@ -253,11 +408,35 @@ def refs_of(ev):
         return [ev[1]] + ([ev[5][2]] if ev[5][0] == "addkid" else [])
     if k in ("exit", "pickle"):
         return []
+    if k in ("attr", "mmap"):
+        return [ev[1]]
     return [ev[1]]
+
+
+def adopted(ev):
+    """nodes an event binds into another tensordict"""
+    k = ev[0]
+    if k == "ctor":
+        return [j for _, j in ev[1]]
+    if k == "lazy":
+        return list(ev[1])
+    if k == "mut" and ev[5][0] == "addkid":
+        return [ev[5][2]]
+    if k == "mutp" and ev[6][0] == "addkid":
+        return [ev[6][2]]
+    return []
 
 
 def gen_event6(rng, impl: Impl6, obj_counter, leaf_fns):
     ev = _gen_event6(rng, impl, obj_counter, leaf_fns)
+    # binding a *named* tensordict into another one is not a pure binding: `_validate_value` makes the container adopt the
+    # names (walking down its other entries) or clones the value when the names clash -- outside the event machine
+    named = [j for j in adopted(ev) if impl.nodes[j] is not None and impl.named(j)]
+    if not named and ev[0] in ("mut", "mutp") and adopted(ev) and impl.named(ev[1]):
+        named = [ev[1]]          # a named container clones an entry whose names differ
+    if named:
+        j = named[0]
+        return ("read", j, 5 if impl.is_lazy(impl.nodes[j]) else 2, [])
     # the tensordicts returned by flatten_keys are only allocation placeholders here: they share their (non-tensor) leaves with
     # their source, and a NonTensorData shared by two locked containers is a lock dependency the model does not represent
     if ev[0] != "read" and any(j in impl.results for j in refs_of(ev)):
@@ -268,6 +447,15 @@ def gen_event6(rng, impl: Impl6, obj_counter, leaf_fns):
     return ev
 
 
+def rebuild_ok(impl, i):
+    """`_add_batch_dim` / `detach` are rendered by the leaves they wrap: needs a tensor leaf (vmap) and no non-tensor entry below"""
+    from tensordict.utils import is_non_tensor
+    sub = impl.reach(i)
+    has_nt = any(is_non_tensor(v) for x in sub for _, v in impl.entries(x))
+    has_leaf = any(isinstance(v, torch.Tensor) for x in sub for _, v in impl.entries(x))
+    return has_leaf and not has_nt
+
+
 def _gen_event6(rng, impl: Impl6, obj_counter, leaf_fns):
     """the C05 generator plus reads and rebinding writes"""
     live = [i for i, n in enumerate(impl.nodes) if n is not None and i not in impl.results]
@@ -276,7 +464,8 @@ def _gen_event6(rng, impl: Impl6, obj_counter, leaf_fns):
         # repeat a recent read (that is what produces hits)
         ev = rng.choice([e for e in impl.recent[-6:] if e[2] != 7] or impl.recent[-6:])
         if ev[2] != 7 and impl.nodes[ev[1]] is not None and (ev[2] in (5, 7)) == impl.is_lazy(impl.nodes[ev[1]]) and \
-                (ev[2] in (5, 7) or not any(impl.is_lazy(x) for x in impl.reach(ev[1]))):
+                (ev[2] in (5, 7) or not any(impl.is_lazy(x) for x in impl.reach(ev[1]))) and \
+                (ev[2] not in (8, 9) or rebuild_ok(impl, ev[1])):
             return ev
     if live and r < 0.40:
         locked = [i for i in live if impl.nodes[i].is_locked]
@@ -293,20 +482,36 @@ def _gen_event6(rng, impl: Impl6, obj_counter, leaf_fns):
         if any(impl.is_lazy(x) for x in impl.reach(i)):
             # the keys of a nested lazy stack are the keys shared by its members, not its members: outside the content model
             return ("read", i, 2, [])
-        m = rng.choice([0, 0, 1, 1, 2, 3, 4, 6])
+        m = rng.choice([0, 0, 1, 1, 2, 3, 4, 6, 8, 8, 9])
+        if m in (8, 9):
+            # rebuilt tensordicts over the same storages: needs a tensor leaf (vmap) and no non-tensor entry below
+            if not rebuild_ok(impl, i):
+                m = 1
+            elif m == 8:
+                return ("read", i, 8, [0, rng.choice([1, 1, 2])])     # (torch.vmap normalises in_dims: -1 is keyed as 0)
+            else:
+                return ("read", i, 9, [])
         if m in (0, 1):
             return ("read", i, m, [rng.randint(0, 1), rng.randint(0, 1)])
         if m == 6:
             f = rng.choice(leaf_fns)
             return ("read", i, 6, [rng.randint(0, 1), rng.randint(0, 1), f])
         return ("read", i, m, [])
-    if live and r < 0.40:
+    if live and r < 0.44:
         from tensordict import NonTensorData
         cands = [(i, k) for (i, k) in impl.fresh_nt if impl.nodes[i] is not None and type(impl.nodes[i]._tensordict.get(k)) is NonTensorData]
         if cands:
             i, k = rng.choice(sorted(cands))
             obj_counter[0] += 1
             return ("rebind", i, k, NT_BASE + obj_counter[0])
+    if live and r < 0.52:
+        ev = gen_attr(rng, impl, live, obj_counter)
+        if ev is not None:
+            return ev
+    if live and r < 0.55:
+        ev = gen_mmap(rng, impl, live, obj_counter)
+        if ev is not None:
+            return ev
     ev = H5.gen_event(rng, impl, obj_counter)
     # storage conversions rebind every leaf: not part of the C06 model (checked by the targeted scenarios)
     if ev[0] in ("memmap", "share", "pickle"):
@@ -330,7 +535,76 @@ def _gen_event6(rng, impl: Impl6, obj_counter, leaf_fns):
     return ev
 
 
+FULL_DEPTH = 99
+
+
+def gen_attr(rng, impl, live, obj_counter):
+    """a metadata assignment (accepted whatever the lock): (attr i field value depth op); field 0 names, 1 batch size, 2 device"""
+    locked = [i for i in live if impl.nodes[i].is_locked]
+    i = rng.choice(locked) if locked and rng.random() < 0.8 else rng.choice(live)
+    td = impl.nodes[i]
+    if impl.is_tc(td):
+        return None
+    sub = impl.reach(i)
+    if any(impl.is_tc(x) for x in sub):
+        return None
+    obj_counter[0] += 1
+    v = obj_counter[0]
+    op = rng.choice(["names_new", "names_new", "names_none", "batch", "device"])
+    if op in ("names_new", "names_none"):
+        if impl.names_of(td) is None or any(impl.names_of(x) is None for x in sub):
+            return None          # a stack whose members disagree raises half-way through the walk
+        if not impl.stacks_consistent_after(sub) or not impl.is_tree(i):
+            return None          # (a tensordict reachable twice is renamed by the first path before the second one compares names)
+        if op == "names_new":
+            return ("attr", i, 0, v, FULL_DEPTH, op)
+        return ("attr", i, 0, v, 1, op)
+    if op == "batch":
+        if impl.is_lazy(td):
+            return None
+        if td._has_names():
+            # shrinking the batch size of a named tensordict pushes `names = None` one level down
+            if any(impl.names_of(x) is None for x in sub) or not impl.stacks_consistent_after(sub) or not impl.is_tree(i):
+                return None
+            return ("attr", i, 1, v, 1, op)
+        return ("attr", i, 1, v, 0, op)
+    if any(impl.is_lazy(x) for x in sub):
+        return None              # `_set_device` does not reach the members of a nested lazy stack
+    return ("attr", i, 2, v, FULL_DEPTH, op)
+
+
+def gen_mmap(rng, impl, live, obj_counter):
+    """`memmap_(new_dir, copy_existing=True)` on a plain tensordict, locked or not, memory-mapped already or not"""
+    from tensordict.utils import is_non_tensor
+    cands = [i for i in live if not impl.is_lazy(impl.nodes[i]) and not impl.is_tc(impl.nodes[i])]
+    if not cands:
+        return None
+    locked = [i for i in cands if impl.nodes[i].is_locked]
+    i = rng.choice(locked) if locked and rng.random() < 0.8 else rng.choice(cands)
+    sub = impl.reach(i)
+    if any(impl.is_tc(x) or impl.is_lazy(x) for x in sub):
+        return None
+    if any(is_non_tensor(v) for x in sub for _, v in impl.entries(x)):
+        return None
+    if any(c is x for c in impl.ctx for x in sub):
+        return None
+    news = []
+    for x in sub:
+        j = impl.index_of(x)
+        if j is None:
+            return None
+        for k, v in impl.entries(x):
+            if isinstance(v, torch.Tensor):
+                obj_counter[0] += 1
+                news.append((j, k, obj_counter[0]))
+    return ("mmap", i, news)
+
+
 def ev_sx6(ev, addr_of):
+    if ev[0] == "attr":
+        return sx("attr", ev[1], ev[2], ev[3], ev[4])
+    if ev[0] == "mmap":
+        return "(mmap %d (%s))" % (ev[1], " ".join("(%d %s %d)" % (j, k, no) for j, k, no in ev[2]))
     if ev[0] == "read":
         args = []
         for a in ev[3]:
@@ -373,20 +647,17 @@ def run_history6(rng, drv, n_events, scratch: Path):
             except Exception as e:  # noqa
                 rd = {"kind": "error:" + type(e).__name__ + ":" + str(e)[:80], "result": None, "stale": None, "twin": None}
             # a tensordict-valued read allocates an object on every computation: it gets the next id on both sides
-            if ev[2] == 4 and rd["result"] is not None and rd["kind"] != "hit":
-                out_obj = None
-                # the object is the one just returned: recover it through a second look at the cache / result
-                out_obj = impl._last_out
-                impl.results.add(len(impl.nodes))
-                impl.nodes.append(out_obj)
-                rd["result"] = impl.canon(impl.nodes[ev[1]], 4, out_obj)
+            # (a hit on an object the harness has not seen: memoised by an internal call, e.g. `_add_batch_dim` of the holder)
+            if ev[2] in ALLOCATING and rd["result"] is not None and (rd["kind"] != "hit" or impl.node_id(impl._last_out) is None):
+                register_result(impl, ev, rd)
+            rd["caches"] = impl.cache_nonempty()
             evs.append(ev)
             impl.recent.append(ev)
             answers.append(("read", rd))
             continue
         out = impl.run(ev)
         evs.append(ev)
-        answers.append(("view", [out, impl.view()]))
+        answers.append(("view", [out, impl.view()], impl.cache_nonempty()))
     impl.ctx.clear()
     line = "(c06.run " + " ".join(ev_sx6(e, addr_of) for e in evs) + ")"
     ans = parse_sx(drv.ask(line))
@@ -399,7 +670,7 @@ _orig_call = Impl6.call
 
 def _call_keep(self, td, meth, args):
     out = _orig_call(self, td, meth, args)
-    if meth == 4 and M.ENABLED:
+    if meth in ALLOCATING and M.ENABLED:
         self._last_out = out
     return out
 
@@ -420,6 +691,13 @@ def replay_events6(drv, texts, scratch: Path):
             evs.append(("read", p[1], p[2], args))
         elif p[0] == "rebind":
             evs.append(("rebind", p[1], str(p[2]), p[3]))
+        elif p[0] == "attr":
+            # the operation is a function of (field, depth): names_new = full depth, names_none = one level, …
+            f, d = p[2], p[4]
+            op = {0: "names_new" if d > 1 else "names_none", 1: "batch", 2: "device"}[f]
+            evs.append(("attr", p[1], f, p[3], d, op))
+        elif p[0] == "mmap":
+            evs.append(("mmap", p[1], [(e[0], str(e[1]), e[2]) for e in p[2]]))
         else:
             evs.append(H5.sx_to_ev(t))
     rows = []
@@ -429,13 +707,12 @@ def replay_events6(drv, texts, scratch: Path):
                 rd = impl.read(ev)
             except Exception as e:  # noqa
                 rd = {"kind": "error:" + type(e).__name__, "result": None, "stale": None, "twin": None}
-            if ev[2] == 4 and rd["result"] is not None and rd["kind"] != "hit":
-                impl.results.add(len(impl.nodes))
-                impl.nodes.append(impl._last_out)
-                rd["result"] = impl.canon(impl.nodes[ev[1]], 4, impl._last_out)
+            if ev[2] in ALLOCATING and rd["result"] is not None and (rd["kind"] != "hit" or impl.node_id(impl._last_out) is None):
+                register_result(impl, ev, rd)
+            rd["caches"] = impl.cache_nonempty()
             rows.append(("read", rd))
         else:
-            rows.append(("view", [impl.run(ev), impl.view()]))
+            rows.append(("view", [impl.run(ev), impl.view()], impl.cache_nonempty()))
     ans = parse_sx(drv.ask("(c06.run " + " ".join(ev_sx6(e, addr_of) for e in evs) + ")"))
     impl.ctx.clear()
     return evs, rows, ans, addr_of
